@@ -26,14 +26,51 @@ impl Decimal {
         Decimal { coef, exp }
     }
 
+    #[cfg(test)]
     pub fn lcm(&self, other: &Decimal) -> Decimal {
+        self.try_lcm(other).expect("multipleOf: least common multiple out of range")
+    }
+
+    /// Least common multiple, or an error if it (or an intermediate value) does not fit.
+    pub fn try_lcm(&self, other: &Decimal) -> Result<Decimal> {
         if self.coef == 0 || other.coef == 0 {
-            return Decimal::new(0, 0);
+            return Ok(Decimal::new(0, 0));
         }
-        let a = self.coef * 10u32.pow(other.exp.saturating_sub(self.exp));
-        let b = other.coef * 10u32.pow(self.exp.saturating_sub(other.exp));
-        let coef = (a * b) / gcd(a, b);
-        Decimal::new(coef, self.exp.max(other.exp))
+        let too_big = || {
+            anyhow!(
+                "Values for 'multipleOf' have too many digits to be combined: {} and {}",
+                self.to_f64(),
+                other.to_f64()
+            )
+        };
+        let scale = |coef: u32, exp: u32| -> Option<u64> {
+            (coef as u64).checked_mul(10u64.checked_pow(exp)?)
+        };
+        let a = scale(self.coef, other.exp.saturating_sub(self.exp)).ok_or_else(too_big)?;
+        let b = scale(other.coef, self.exp.saturating_sub(other.exp)).ok_or_else(too_big)?;
+        let coef = a.checked_mul(b).ok_or_else(too_big)? / gcd64(a, b);
+        let coef = u32::try_from(coef).map_err(|_| too_big())?;
+        let r = Decimal::new(coef, self.exp.max(other.exp));
+        r.check_range()?;
+        Ok(r)
+    }
+
+    /// The regex engine computes remainders of `coef * 10^-exp` digit by digit in u32:
+    /// `remainder * 10 + digit * 10^exp` with `remainder < coef` must not overflow.
+    pub fn check_range(&self) -> Result<()> {
+        let fits = 10u64
+            .checked_pow(self.exp)
+            .and_then(|p| p.checked_mul(9))
+            .and_then(|p| p.checked_add(self.coef as u64 * 10))
+            .is_some_and(|v| v <= u32::MAX as u64);
+        if fits {
+            Ok(())
+        } else {
+            Err(anyhow!(
+                "Value for 'multipleOf' has too many digits: {}",
+                self.to_f64()
+            ))
+        }
     }
 
     pub fn to_f64(&self) -> f64 {
@@ -48,11 +85,18 @@ impl TryFrom<f64> for Decimal {
         if value < 0.0 {
             return Err(anyhow!("Value for 'multipleOf' must be non-negative"));
         }
+        let orig = value;
         let mut value = value;
         let mut exp = 0;
         while value.fract() != 0.0 {
             value *= 10.0;
             exp += 1;
+            if exp > 9 {
+                return Err(anyhow!(
+                    "Value for 'multipleOf' has too many digits: {}",
+                    orig
+                ));
+            }
         }
         if value > u32::MAX as f64 {
             return Err(anyhow!(
@@ -60,15 +104,17 @@ impl TryFrom<f64> for Decimal {
                 value
             ));
         }
-        Ok(Decimal::new(value as u32, exp))
+        let r = Decimal::new(value as u32, exp);
+        r.check_range()?;
+        Ok(r)
     }
 }
 
-fn gcd(a: u32, b: u32) -> u32 {
+fn gcd64(a: u64, b: u64) -> u64 {
     if b == 0 {
         a
     } else {
-        gcd(b, a % b)
+        gcd64(b, a % b)
     }
 }
 
